@@ -50,6 +50,19 @@ def run():
         if s["s"]["pc"] in ("returned", "raised"):
             plans.append(dict(drv.plan_from_hist(s["hist"]), variants=c["variants"]))
     rep.set("behaviours", len(plans))
+    # unbounded path lengths: Apalache discharges the inductive invariant of the same life cycle (spec/apalache/FieldCallInd.tla)
+    from ..common import SPEC
+    ind = os.path.join(SPEC, "apalache", "FieldCallInd.tla")
+    obligations = [("Init", "IndInv", 0, None, True), ("IndInit", "IndInv", 1, None, True), ("IndInit", "NoMutation", 0, None, True),
+                   ("IndInit", "IndInv", 1, "NextAsBuilt", False)]      # the last one is the negative control: must be refuted
+    done = 0
+    for init, inv, length, nxt, want in obligations:
+        ok, out = tlc.apalache(ind, init, inv, length, nxt)
+        if ok != want:
+            raise MachineryError(f"Apalache obligation {init}/{inv}/{nxt}: expected {'OK' if want else 'a counterexample'}:\n{out[-1500:]}")
+        done += 1
+    rep.set("apalache_obligations_discharged", done - 1)
+    rep.set("apalache_negative_control_refuted", True)
     rep.phase("model_check")
     d = workdir("traces/c08")
     nproc = 16
